@@ -1,5 +1,6 @@
 import Holpy.Common.Sexp
 import Holpy.C17.Model
+import Holpy.C17.HolModel
 /-
 Line protocol for the C17 model: one whole operation sequence per line, run from the empty
 structure; the answer lists the canonical output of every operation.
@@ -10,6 +11,12 @@ structure; the answer lists the canonical output of every operation.
     (test a b)                          -> T | F | (err key)
     (explain a b)                       -> (res ((a b) LABEL ...) ...) sorted by key | (err KIND)
   LABEL = (c a b) | (f a1 a2 a b1 b2 b)
+
+  (hol HOP ...)  a history of the HOL wrapper model (HolModel.lean), HOP =
+    (merge S T) | (add S)   -> (tab (k TERM) ...)       the table `index` after the call, ascending k
+    (test S T)              -> (T|F|(err ..) (tab ...))
+    (explain S T)           -> (RES (tab ...))           RES as above, over the wrapper's constants
+  TERM = n (atom) | (F X) (application)
 -/
 open Holpy Holpy.C17
 
@@ -83,8 +90,57 @@ def runOps : State → List Sexp → List Sexp → Option (List Sexp)
       | _, _ => none
     | _ => none
 
+partial def termOf : Sexp → Option Term
+  | .atom a => (a.toNat?).map Term.atom
+  | .list [f, x] => do some (.app (← termOf f) (← termOf x))
+  | _ => none
+
+partial def termTo : Term → Sexp
+  | .atom n => Sexp.ofNat n
+  | .app f x => .list [termTo f, termTo x]
+
+def tabOf (w : WState) : Sexp :=
+  let ks := sortNats (w.index.map (·.1))
+  .list (.atom "tab" :: ks.filterMap fun k => (aget w.index k).map fun t => .list [Sexp.ofNat k, termTo t])
+
+def runHol : WState → List Sexp → List Sexp → Option (List Sexp)
+  | _, [], acc => some acc.reverse
+  | w, op :: rest, acc =>
+    match op with
+    | .list [.atom "add", s] =>
+      match termOf s with
+      | some s => let w' := (addTerm s w).1; runHol w' rest (tabOf w' :: acc)
+      | none => none
+    | .list [.atom "merge", s, t] =>
+      match termOf s, termOf t with
+      | some s, some t => let w' := wmerge w s t; runHol w' rest (tabOf w' :: acc)
+      | _, _ => none
+    | .list [.atom "test", s, t] =>
+      match termOf s, termOf t with
+      | some s, some t =>
+        let r := wtest w s t
+        let o := match r.2 with
+          | .ok v => Sexp.ofBool v
+          | .error e => errTo e
+        runHol r.1 rest (.list [o, tabOf r.1] :: acc)
+      | _, _ => none
+    | .list [.atom "explain", s, t] =>
+      match termOf s, termOf t with
+      | some s, some t =>
+        let r := wexplain w s t
+        let o := match r.2 with
+          | .ok v => resTo v
+          | .error e => errTo e
+        runHol r.1 rest (.list [o, tabOf r.1] :: acc)
+      | _, _ => none
+    | _ => none
+
 def handle (line : String) : String :=
   match Sexp.parse line with
+  | some (.list (.atom "hol" :: hops)) =>
+    match runHol WState.init hops [] with
+    | some outs => toString (Sexp.list outs)
+    | none => "bad-op"
   | some (.list ops) =>
     match runOps State.init ops [] with
     | some outs => toString (Sexp.list outs)
